@@ -92,12 +92,16 @@ let () =
            let ports = parse_ports (get "ports" "") in
            let clk = get "clk" "PS" in
            let haswr = List.exists (fun p -> p.kind = 'W' || p.kind = 'A' || p.kind = 'V') ports in
-           let initw = List.map bv_of_string (String.split_on_char ',' (get "words" "")) in
+           let initw = List.concat_map (fun tok ->
+               match String.index_opt tok '*' with
+               | Some i -> let n = int_of_string (String.sub tok 0 i) in
+                 let wv = bv_of_string (String.sub tok (i + 1) (String.length tok - i - 1)) in List.init n (fun _ -> wv)
+               | None -> [ bv_of_string tok ]) (String.split_on_char ',' (get "words" "")) in
            let honoured =
              if pp then (clk.[0] = 'P' || clk.[1] = 'S' || not haswr) else (clk.[0] = 'P' || not haswr) in
            let mem0 = if honoured then initw else List.map (fun _ -> all_X (nat_of_int width)) initw in
            let lat = int_of_string (get "L" "0") in
-           let nreads = List.length (List.filter (fun p -> p.kind = 'R' || p.kind = 'E') ports) in
+           let nreads = List.length (List.filter (fun p -> p.kind = 'R' || p.kind = 'E' || p.kind = 'N') ports) in
            let c = { id; pp; ports; width; depth; lat; abits = int_of_string (get "abits" "1");
                      nc = get "nc" "0" = "1"; exact = get "exact" "0" = "1";
                      mem = mem0; arr = arr_of (nat_of_int width) mem0;
@@ -114,9 +118,10 @@ let () =
             let w = nat_of_int c.width in
             let cfg = { c_width = w; c_abits = nat_of_int c.abits; c_ub = (if c.exact then UB_Exact else UB_Undefined); c_noconf = c.nc } in
             let reads = ref [] in  (* async read results of this cycle, in read-port order (reversed) *)
+            let pens = ref [] in   (* per read port: enable of its read-latency registers in this cycle (reversed) *)
             let eval_once () =
             let gi = ref 0 and wi = ref 0 in
-            reads := [];
+            reads := []; pens := [];
             let nth_read k = List.nth (List.rev !reads) k in
             let wdata p din =
               if p.src < 0 then din
@@ -127,7 +132,8 @@ let () =
               List.iter (fun p ->
                   let addr = Some (bv_of_string addrs.(p.apin)) in
                   match p.kind with
-                  | 'R' | 'E' ->
+                  | 'R' | 'E' | 'N' ->
+                    if p.kind = 'N' then (pens := (gens.(!gi) = "1") :: !pens; incr gi) else pens := true :: !pens;
                     let en = if p.kind = 'E' then (let e = tbit_of_string gens.(!gi) in incr gi; Some e) else None in
                     let (rd, st') = port_step cfg c.mem !st { p_read = true; p_write = false }
                         { pi_addr = addr; pi_en = en; pi_wren = None; pi_wdata = None } in
@@ -150,7 +156,7 @@ let () =
               let cw = ref [] in
               let wj = ref 0 in
               List.iter (fun p -> match p.kind with
-                  | 'R' | 'E' -> ()
+                  | 'R' | 'E' | 'N' -> ()
                   | _ ->
                     let en1 = wr.(!wj) in
                     wj := !wj + 2;
@@ -160,7 +166,8 @@ let () =
               List.iter (fun p ->
                   let a = n_of_int (int_of_bv (bv_of_string addrs.(p.apin))) in
                   match p.kind with
-                  | 'R' | 'E' ->
+                  | 'R' | 'E' | 'N' ->
+                    if p.kind = 'N' then (pens := (gens.(!gi) = "1") :: !pens; incr gi) else pens := true :: !pens;
                     let en = if p.kind = 'E' then (let e = gens.(!gi) in incr gi; e = "1") else true in
                     let (rd, f') = tspec_step w depth c.nc start !cw c.arr { p_read = true; p_write = false }
                         { ai_addr = a; ai_en = en; ai_wen = false; ai_wdata = [] } in
@@ -191,7 +198,9 @@ let () =
             let rds = List.rev !reads in
             let outs = List.map2 (fun (vals, known) rd ->
                 if pipe_out known true then Some (pipe_out vals rd) else None) c.pipes rds in
-            c.pipes <- List.map2 (fun (vals, known) rd -> (pipe_step vals rd, pipe_step known true)) c.pipes rds;
+            let ens = List.rev !pens in
+            c.pipes <- List.map2 (fun ((vals, known), en) rd -> (pipe_step_en en vals rd, pipe_step_en en known true))
+                (List.combine c.pipes ens) rds;
             if tag = "c" then begin
               output_string oc "c";
               List.iter (fun o -> output_string oc (" " ^ (match o with Some v -> string_of_bv v | None -> "?"))) outs;
